@@ -12,6 +12,7 @@ CHECKS = {
          "Lean theorems (any linearly ordered commutative ring): rank_chop returns a rank in [1,len], the discarded energy never exceeds eps² (exact ties included), "
          "it is the least admissible rank, rmax caps, and the per-bond allowances (d-1)·(eps²/(d-1)) sum to eps²; a `decide`d counterexample shows the pre-fix strict comparison broke the bound. "
          "Tie to code: rank_chop compared exactly with the model on integer spectra, and every rank decision taken inside TT(...) is recorded and replayed through the model in exact rationals. "
+         "Value level: the sweeps to_tt / mat_to_tt are modelled with the SVD as an oracle parameter (Decomp.toTT / toTTM); theorems toTT_exact / toTTM_exact: with any oracle satisfying U·W = C the train reproduces every in-range entry of the array; tie: the real constructor is run with an exact integer oracle installed from outside and compared core by core with the same definition. "
          "The Frobenius bound of the whole sweep is the abstract theorem ttsvd_sweep_bound (any real/complex inner-product space: if each step is the orthogonal projection of the current partial approximation onto a subspace of the previous one and discards tailE s (rankChop s (ep·‖x_k‖)), and (d-1)·ep² <= eps², then ‖A - Â‖ <= eps·‖A‖); that the code's truncated SVD steps ARE such projections is the SVD contract (orthonormal factors), assumed, monitored per call, and the bound itself is checked by the property's oracle on every constructed object.",
          TB + "SVD contract (tn.linalg.svd) assumed and monitored per call; the identification of the code's sweep with the nested-projection scheme of ttsvd_sweep_bound is by that contract, not by a core-level model of the sweep; float roundoff outside the model", "§5 C01"),
  "C03": ("proof",
@@ -36,7 +37,8 @@ CHECKS = {
          TB + "operator padding has no Lean theorem yet (model + correspondence + oracle only)", "§5 C09"),
  "C02": ("proof",
          "Lean theorems (M-trunc, shared with C01, restated for the call pattern of round_tt): the rank chosen at every bond is >= 1, <= the old rank, <= rmax; when rmax is not binding the discarded energy is within the per-bond allowance (ties included); an unfolding whose tail singular values vanish is compressed to its true rank for every eps > 0; the d-1 allowances sum to eps². "
-         "Tie: every rank decision taken inside round() is recorded and replayed through the model in exact rationals; the oracle checks error bound, the three rank bounds (old rank, rmax, exact unfolding rank), shape, and bit-identity of the operand afterwards, on inflated / rank-deficient / badly scaled / zero / generic operands.",
+         "Tie: every rank decision taken inside round() is recorded and replayed through the model in exact rationals; the oracle checks error bound, the three rank bounds (old rank, rmax, exact unfolding rank), shape, and bit-identity of the operand afterwards, on inflated / rank-deficient / badly scaled / zero / generic operands. "
+         "Value level: lr_orthogonal / round_tt for tensors and TT-matrices modelled with QR/SVD oracles (lrOrth_full, roundTT_full, lrOrthM_full, roundTTM_full: exact factorisations => same tensor, ranks chain, modes kept); the real sweeps run with exact integer oracles are compared core by core with the models.",
          TB + "QR and SVD contracts assumed (SVD monitored per call); the orthonormality of the frames that makes the per-bond errors add up is not formalised; roundoff outside the model", "§5 C02"),
  "C05": ("proof",
          "Lean theorems over the structural model M-shape: whatever the validating constructor accepts is well formed (cores all 3-d or all 4-d, ranks chain, boundary ranks 1, N/M/R/shape/is_ttm describe exactly those cores, full() shape = M+N); set_core and reduce_dims preserve well-formedness; hence every object in every store reachable by ANY finite history of constructor / set_core / reduce_dims calls is well formed (reachable_wf, induction over histories). "
@@ -47,9 +49,9 @@ CHECKS = {
          "Tie: systematic sweep over every walker operation and argument position (incl. optional initial guesses of DMRG/AMEn/solve/divide/cross) plus random histories re-using results and views; before/after each call ranks, shape, dtype, dense value, list identity, element identities and version counters of EVERY live object are compared; the observed write-sets are compared with the model's effect classes.",
          TB + "the assignment of each Python operation to an effect class is validated by observation on every call of the run, not proved; raw-constructor list sharing is an explicit hypothesis", "§5 C06"),
  "C10": ("proof",
-         "Lean theorems: (L) the two-cursor merge/split loop of reshape, modelled on mode sizes, terminates and returns EXACTLY the requested mode sizes whenever the element counts agree (every ordered factorisation / merge, singleton modes anywhere), with at most len(target) SVD splits; permute's bubble sort ends in the requested order for every permutation, with swaps = inversions <= d(d-1)/2, and the per-swap allowances eps/d^1.5 add up to at most (sqrt(d)/2)*eps; (E) merging two neighbouring cores with row-major index arithmetic preserves the flattened tensor; absorbing size-1 cores preserves it (C08 lemma). "
-         "Tie: mode sizes and the number of SVD splits / swaps observed on the real reshape / permute are compared exactly with the model; rank decisions are replayed through M-trunc; the oracle checks requested shape and ||result - dense reshape/permute|| <= 10*eps*||x|| for every enumerated factorisation, all permutations of <= 4 (5) modes, QTT shapes, tensors and operators, real and complex.",
-         TB + "the eps bound of the whole pipeline needs the QR/SVD contracts and is checked by the oracle, not proved; operator branch of reshape and to_qtt/qtt_to_tens are covered by oracle only", "§5 C10"),
+         "Lean theorems: (L) the two-cursor merge/split loop of reshape, modelled on mode sizes, terminates and returns EXACTLY the requested mode sizes whenever the element counts agree (every ordered factorisation / merge, singleton modes anywhere), with at most len(target) SVD splits; permute's bubble sort ends in the requested order for every permutation, with swaps = inversions <= d(d-1)/2, and the per-swap allowances eps/d^1.5 add up to at most (sqrt(d)/2)*eps; (E) merging two neighbouring cores with row-major index arithmetic preserves the flattened tensor; absorbing size-1 cores preserves it (C08 lemma); (value level, tensor branch, SVD/QR as oracle parameters) permuteTT_full: with exact factorisations permute(x, dims) carries entry (i_0..i_{d-1}) to position (i_dims[0],..,i_dims[d-1]) for every permutation, and reshapeTT_full / reshapeTT_total: reshape terminates with a well-formed train of exactly the target modes whose entries agree with x at equal row-major flat index. "
+         "Tie: mode sizes and the number of SVD splits / swaps observed on the real reshape / permute are compared exactly with the model; rank decisions are replayed through M-trunc; the oracle checks requested shape and ||result - dense reshape/permute|| <= 10*eps*||x|| for every enumerated factorisation, all permutations of <= 4 (5) modes, QTT shapes, tensors and operators, real and complex; the real permute / reshape / rl_orthogonal are additionally run with exact integer SVD/QR oracles installed from outside and compared core by core with the value-level models (Permute.permuteTTWith, Reshape.reshapeTTWith).",
+         TB + "the eps bound of the truncating pipeline needs the QR/SVD contracts (orthonormal factors) and is checked by the oracle, not proved; the TT-matrix branches of reshape/permute and to_qtt/qtt_to_tens are covered by the control-flow model and the oracle only", "§5 C10"),
  "C11": ("proof",
          "PARTIAL BY NATURE. Lean theorems (kind E): the Phi recursions of the AMEn matrix product are the exact left/right partial contractions of <X, A·B>, and the local right-hand side `_local_AB` tested against any core V equals the global trilinear form with X's k-th core replaced by V (localAB_galerkin), the full sweep equals Σ X(i,j)·Σ_k A(i,k)B(k,j) (abxSweep_eq_dense): the local problems are the exact Galerkin projections of the exact product. "
          "Tie: the module-level kernels of _amen.py are compared exactly with the models on integer data. The headline inequality ||y - A x|| <= C·eps·||A x|| (kind K: no convergence proof of DMRG/AMEn exists) is MONITORED, not proved: fast_matvec, dmrg_hadamard, amen_mv, amen_mm vs the exact product for orders 1..6, random and user guesses, complex for DMRG (C = 10; observed <= 0.7·eps).",
@@ -69,7 +71,7 @@ CHECKS = {
  "C16": ("proof",
          "Lean theorems over the model of manifold.py: `_delta2cores` represents exactly the sum of the d tangent terms L_0…L_{k-1} δ_k R_{k+1}…R_{d-1} (full_delta2cores) with interior ranks exactly twice those of x (ranks_twice / ranks_project_le); the projection is linear in z at the level of the represented tensor (project_add, project_smul, for z, w of arbitrary ranks); it fixes the base point given only left-orthonormality of the gauge (proj_fixed, gauge conditions as algebraic hypotheses). "
          "Tie: `_delta2cores` compared exactly on integer cores; for riemannian_projection the gauges computed by the implementation are captured and the model's projection (exact rationals) is compared with the real one (1e-9); the six identities of the property (linear, idempotent, self-adjoint, fixes x, residual orthogonal, rank <= 2r) and riemannian_gradient = P(Euclidean gradient) for three function families are checked numerically on every case.",
-         TB + "idempotence / self-adjointness / residual orthogonality are numerical oracle checks (they follow from full_delta2cores + orthonormal gauges); QR contract; autograd", "§5 C16"),
+         TB + "idempotence, self-adjointness, residual orthogonality, Pythagoras are Lean theorems (proj_idempotent under orthonormal gauges, proj_selfadjoint unconditionally, proj_orthogonal_projector) whose hypotheses (orthonormal gauges, equal rank profiles) are checked numerically on the gauges each run used; that QR returns orthonormal factors is the trusted contract; riemannian_gradient = P(grad f) rests on autograd and is an oracle check", "§5 C16"),
  "C17": ("proof",
          "PARTIAL BY NATURE. Lean theorems about the C++ rank selection (counting-down loop of cpp/ortho.h): rank in [1,len] and discarded energy < eps² for eps>0, it is the least rank with strictly smaller tail, it coincides with the Python rank_chop except at exact ties (where it keeps one more value) and Python's rank <= C++'s; documented difference at eps <= 0. "
          "Tie: the extension is rebuilt from /repo/cpp on every source change (plus a 5-line verification-only shim exposing rank_chop) and C++ rank_chop is compared exactly with the model; both backends are run on the same systems / products (all preconditioners, with/without guess): same inputs accepted/rejected, both satisfy the C11/C12 contracts, mutual residual distance within them (MONITORED, kind K).",
@@ -77,7 +79,7 @@ CHECKS = {
  "C15": ("proof",
          "Lean theorems: for every well-typed expression over {var, +, -, *, unary -, scalar *, scalar +, A@x} with a scalar head in {sum, dot, norm², entry, bilinear form, sums/products of those}, TT evaluation equals dense evaluation over ANY commutative ring; instantiated at dual numbers a+b·eps (carrier and operations are exactly the driver's) value AND derivative agree, i.e. every partial derivative w.r.t. every core entry of every operand equals the dense one (grad_eq_dense). "
          "Tie: random programs of depth 1..3 (also with kron, cat, pad, mprod, partial sums, slicing inside) are differentiated by torch autograd through the real torchtt (grad.grad / grad_list / watch variants) and compared EXACTLY, entry by entry, with the model's dual-number evaluation and with an independent dense autograd graph.",
-         TB + "torch.autograd trusted; 'algebraic derivative = analytic derivative' for polynomial maps; expression-level theorem covers the shape-preserving fragment, shape-changing operations rely on their own value theorems (C03/C07/C08/C09) plus the exact correspondence", "§5 C15"),
+         TB + "programs in which an operand is scaled by a scalar EXPRESSION of tracked cores are covered by evalProg_eq_dense / gradProg_eq_dense; torch.autograd trusted; 'algebraic derivative = analytic derivative' for polynomial maps; expression-level theorem covers the shape-preserving fragment, shape-changing operations rely on their own value theorems (C03/C07/C08/C09) plus the exact correspondence", "§5 C15"),
  "C18": ("proof",
          "Lean theorems over the guard model: for +,-,* and @ between TT objects, whenever the operands have no dense counterpart (kind mismatch, non-broadcastable / unequal shapes) the guard returns an exception class and never `ok` (reject_complete), the documented class is the one returned (IncompatibleTypes / ShapeMismatch / InvalidArguments), @ accepts exactly the compatible pairs; the constructor's rejection logic is the M-shape theorem. "
          "Tie: malformed stream (~1100 cases: every entry point x incompatibility class x position) executed on the real code with the property as oracle (must raise; documented class where the docstring names one), guard/constructor outcomes compared with the model outcome-class by outcome-class; a control stream checks that compatible calls are not rejected.",
